@@ -202,6 +202,10 @@ class HWorld:
             m = Market(i, None, self.sim, "m%d" % i)
             m.setup({"tickSize": 1.0, "marketPrice": 100.0})
             self.ms.append(m)
+        # the harness' own ledger of the parameters in force (never read back from the generator)
+        self.ref_drifts = [0.0, 2.0 ** -7, 0.0]
+        self.ref_vols = [0.25, 0.0, 0.0]
+        self.ref_corr = {}
         self.t = -1
         self.hist = [[] for _ in range(3)]  # reference copy of every price up to the current time
         self.wit = Counter()
@@ -218,8 +222,7 @@ class HWorld:
             self.wit.inc("hist_advance_across_chunk")
 
     def params(self):
-        f = self.f
-        return ([f.drifts[i] for i in range(3)], [f.volatilities[i] for i in range(3)], dict(f.correlation))
+        return (list(self.ref_drifts), list(self.ref_vols), dict(self.ref_corr))
 
     def apply(self, op):
         f, t = self.f, self.t
@@ -228,19 +231,27 @@ class HWorld:
             self.adv()
         elif k == "drift":
             f.change_drift(op[1], op[2], time=t)
+            self.ref_drifts[op[1]] = op[2]
             self.wit.inc("hist_param_change")
         elif k == "vol":
-            if 0.0 != f.volatilities[op[1]] != op[2] != 0.0:
+            if 0.0 != self.ref_vols[op[1]] != op[2] != 0.0:
                 self.wit.inc("hist_volatility_changed_between_nonzero_values")
+            if self.ref_vols[op[1]] == 0.0 and op[2] != 0.0 and any(op[1] in pair for pair in self.ref_corr):
+                self.wit.inc("hist_volatility_restored_on_a_correlated_market")
             f.change_volatility(op[1], op[2], time=t)
+            self.ref_vols[op[1]] = op[2]
             self.wit.inc("hist_param_change")
         elif k == "corr":
             f.set_correlation(op[1], op[2], op[3], time=t)
+            self.ref_corr.pop((op[2], op[1]), None)
+            self.ref_corr[(op[1], op[2])] = op[3]
             self.wit.inc("hist_param_change")
         elif k == "uncorr":
-            if (op[1], op[2]) not in f.correlation and (op[2], op[1]) not in f.correlation:
+            if (op[1], op[2]) not in self.ref_corr and (op[2], op[1]) not in self.ref_corr:
                 return False
             f.remove_correlation(op[1], op[2], time=t)
+            self.ref_corr.pop((op[1], op[2]), None)
+            self.ref_corr.pop((op[2], op[1]), None)
         elif k == "shock":
             self.ms[op[1]].change_fundamental_price(op[2])
             self.hist[op[1]][t] = self.hist[op[1]][t] * op[2]
@@ -324,6 +335,15 @@ def _hexpand(chunk_of_hists):
             except Violation as v:
                 n += 1
                 viol.append((v.monitor, v.msg, nh))
+                continue
+            except Exception as e:  # noqa
+                import traceback
+                tb = traceback.extract_tb(e.__traceback__)
+                if not (tb and tb[-1].filename.startswith(common.REPO + "/")):
+                    raise
+                n += 1
+                viol.append(("C12.api_raised", "an operation of the generator's API on a state reached by valid operations raised | %s: %s at %s:%d" % (
+                    type(e).__name__, str(e)[:60], tb[-1].filename[len(common.REPO) + 1:], tb[-1].lineno), nh))
                 continue
             if w is None:
                 continue
